@@ -61,7 +61,8 @@ theorem C01_h4 : C01Statement hashOf shake256 4 := C01_height hashOf shake256 4 
 theorem C01_h6 : C01Statement hashOf shake256 6 := C01_height hashOf shake256 6 (traversal_of_checkAll _ bds_h6) (by decide) (by decide) (by decide)
 theorem C01_h8 : C01Statement hashOf shake256 8 := C01_height hashOf shake256 8 (traversal_of_checkAll _ bds_h8) (by decide) (by decide) (by decide)
 theorem C01_h10 : C01Statement hashOf shake256 10 := C01_height hashOf shake256 10 (traversal_of_checkAll _ bds_h10) (by decide) (by decide) (by decide)
-/-- height 12: the label-level check is assembled from 13 kernel-checked segment certificates of 315 indices -/
+/-- height 12: the label-level check is assembled from kernel-checked certificates (key generation in 64 pieces of 64 leaves,
+the traversal in 39 segments of 105 indices) -/
 theorem C01_h12 : C01Statement hashOf shake256 12 := C01_height hashOf shake256 12 Seg12.traversal (by decide) (by decide) (by decide)
 
 /-- the full property (all supported heights) reduces to the label-level check of each height; proved above
